@@ -28,25 +28,14 @@ def trav_text():
         return fh.read()
 
 
-def cfg_text(maxlen, family, lead):
-    return ("CONSTANTS\n  MaxLen = %d\n  GraphIdx <- AllWorlds\n  Alpha = \"narrow\"\n  Family = \"%s\"\n  Lead = \"%s\"\n"
-            "SPECIFICATION GSpec\nINVARIANT TypeInv\nINVARIANT EmitState\nCHECK_DEADLOCK FALSE\n" % (maxlen, family, lead))
-
-
-def wcfg_text(maxcalls, family):
-    return ("CONSTANTS\n  MaxCalls = %d\n  Family = \"%s\"\nSPECIFICATION WSpec\nINVARIANT ReadOnly\nINVARIANT EmitWrites\n"
-            "CHECK_DEADLOCK FALSE\n" % (maxcalls, family))
-
-
 def plans(ctx):
-    """(label, maxlen, family, lead, simulate, depth, cap on distinct()-bearing states, cap on replayed states)"""
+    """(cfg of spec/gripper (GT_<label>.cfg), world family, simulate, depth, cap on distinct()-bearing states, cap on replayed states)"""
     if ctx.tier == "quick":
-        ps = [("hand-lead2", 2, "hand", "label", None, None, 0, None), ("hand-all1", 1, "hand", "all", None, None, 4, None),
-              ("gen-lead1", 1, "gen", "label", None, None, 0, None)]
+        ps = [("hand_mix2", "hand", None, None, 4, None), ("gen_lead1", "gen", None, None, 0, None)]
     else:
-        ps = [("hand-all2", 2, "hand", "all", None, None, 40, None), ("hand-lead3", 3, "hand", "label2", None, None, 10, None),
-              ("gen-lead2", 2, "gen", "label", None, None, 5, 15000), ("gen-all1", 1, "gen", "all", None, None, 5, 12000),
-              ("hand-sim", 6, "hand", "all", "num=1500", 7, 5, 30000), ("vol", 1, "vol", "all", None, None, 0, None)]
+        ps = [("hand_all2", "hand", None, None, 40, None), ("hand_lead3", "hand", None, None, 10, None),
+              ("gen_lead2", "gen", None, None, 5, 15000), ("gen_all1", "gen", None, None, 5, 12000),
+              ("hand_sim", "hand", "num=1500", 7, 5, 30000), ("vol", "vol", None, None, 0, None)]
     only = os.environ.get("VERIF_C15_PLANS")   # debugging aid: comma-separated plan labels
     return [p for p in ps if not only or p[0] in only.split(",")]
 
@@ -269,9 +258,9 @@ def reattribute(ctx, label, worlds, graphs, states, reqs, maps, mini, outs, repe
     return out_mini, outs
 
 
-def traversal_part(ctx, trav, label, maxlen, family, lead, sim, depth, cap, maxstates, totals):
-    res = ctx.tlc("gripper", "GripperTraversal", "GT.cfg", workers=WORKERS, simulate=sim, depth=depth, timeout=900,
-                  files={"Traversal.tla": trav, "GT.cfg": cfg_text(maxlen, family, lead)}, label=label)
+def traversal_part(ctx, trav, label, family, sim, depth, cap, maxstates, totals):
+    res = ctx.tlc("gripper", "GripperTraversal", "GT_%s.cfg" % label, workers=WORKERS, simulate=sim, depth=depth, timeout=900,
+                  files={"Traversal.tla": trav}, label=label)
     worlds, graphs = res.msgs["worlds"][0], res.msgs["graphs"][0]
     states, seen = [], set()
     for s in res.msgs.get("st", []):
@@ -367,8 +356,7 @@ def traversal_part(ctx, trav, label, maxlen, family, lead, sim, depth, cap, maxs
 
 
 def writes_part(ctx, family, totals):
-    res = ctx.tlc("gripper", "GripperWrites", "GW.cfg", workers=WORKERS, timeout=600,
-                  files={"GW.cfg": wcfg_text(2, family)}, label="writes-" + family)
+    res = ctx.tlc("gripper", "GripperWrites", "GW_%s.cfg" % family, workers=WORKERS, timeout=600, label="writes-" + family)
     worlds, graphs = res.msgs["worlds"][0], res.msgs["graphs"][0]
     cases = res.msgs.get("wr", [])
     if not cases:
@@ -426,8 +414,8 @@ def writes_part(ctx, family, totals):
 def run(ctx):
     trav = trav_text()
     totals = dict(states=0, nontriv=0, bad=0, worlds=0, writes=0, lead=0)
-    for label, maxlen, family, lead, sim, depth, cap, maxstates in plans(ctx):
-        traversal_part(ctx, trav, label, maxlen, family, lead, sim, depth, cap, maxstates, totals)
+    for label, family, sim, depth, cap, maxstates in plans(ctx):
+        traversal_part(ctx, trav, label, family, sim, depth, cap, maxstates, totals)
     writes_part(ctx, "hand", totals)
     if ctx.tier != "quick":
         writes_part(ctx, "gen", totals)
